@@ -78,7 +78,22 @@ func (x *DotLookup) Visit(v func(Expression)) {
 }
 
 func (x *DotLookup) String() string {
+	// a numeric lookup directly after another numeric lookup, e.g. foo.1 .5, has to be kept apart from it
+	// because foo.1.5 would be read as a lookup of the decimal 1.5
+	if inner, ok := x.Container.(*DotLookup); ok && isAllDigits(inner.Lookup) && isAllDigits(x.Lookup) {
+		return fmt.Sprintf("%s .%s", x.Container.String(), x.Lookup)
+	}
+
 	return fmt.Sprintf("%s.%s", x.Container.String(), x.Lookup)
+}
+
+func isAllDigits(s string) bool {
+	for _, c := range s {
+		if c < '0' || c > '9' {
+			return false
+		}
+	}
+	return s != ""
 }
 
 type ArrayLookup struct {
